@@ -237,6 +237,18 @@ class Ctx:
         """Evaluate, inside Coq, `Definition <name> := Eval vm_compute in <expr>` for each shard.
         header: Coq text with Require Imports. body_defs: list of Coq expressions (one per shard)
         of type `list N` (indices of mismatching cases). Returns (ok, list of lists of ints, logs)."""
+        # the modules the header imports must be built from the sources as they are now (a module left over from an earlier
+        # build, older than something it depends on, is rejected by coqc as "inconsistent assumptions")
+        mods = []
+        for line in header.splitlines():
+            mm = re.match(r"\s*From\s+Dawn\s+Require\s+(?:Import\s+|Export\s+)?(.*?)\.\s*$", line)
+            if mm:
+                mods += [x for x in mm.group(1).split() if re.match(r"^[A-Za-z_][\w.]*$", x)]
+        targets = [m.replace(".", "/") + ".vo" for m in mods if os.path.exists(os.path.join(COQ, m.replace(".", "/") + ".v"))]
+        if targets:
+            okb, outb = self.coq_build(targets)
+            if not okb:
+                return False, [None] * len(body_defs), [outb[-2000:]]
         d = os.path.join(self.tmp, "coqeval-%d" % int(time.time() * 1000 % 1e9))
         os.makedirs(d, exist_ok=True)
         files = []
